@@ -344,7 +344,7 @@ class DescriptorTransaction(_TransactionBase):
                         new_descriptor.Handle, new_descriptor.DescriptorVersion)
                     # use copies: mdib, transaction object and published result must not share nested values
                     orig_descriptor.update_from_other_container(new_descriptor.mk_copy())
-                    proc.descr_updated.append(orig_descriptor.mk_copy())
+                    self._add_updated_descriptor(proc, orig_descriptor)
                     self._update_corresponding_state(orig_descriptor)
                     self._mdib.descriptions.update_object_no_lock(orig_descriptor)
             for updates_dict, dest_list in ((self.alert_state_updates, proc.alert_updates),
@@ -418,13 +418,23 @@ class DescriptorTransaction(_TransactionBase):
                     new_state.increment_state_version()
                     updates_dict[descriptor_container.Handle] = TransactionItem(old_state, new_state)
 
+    @staticmethod
+    def _add_updated_descriptor(proc: TransactionResult, descriptor_container: AbstractDescriptorProtocol):
+        """Add a copy of the descriptor to the updated descriptors of the transaction result.
+
+        A descriptor can be changed more than once by a transaction (e.g. two children added below the same parent).
+        It is reported once, as it is in mdib after the transaction; an earlier (outdated) copy is replaced.
+        """
+        proc.descr_updated[:] = [d for d in proc.descr_updated if d.Handle != descriptor_container.Handle]
+        proc.descr_updated.append(descriptor_container.mk_copy())
+
     def _increment_parent_descriptor_version(self, proc: TransactionResult,
                                              descriptor_container: AbstractDescriptorProtocol):
         parent_descriptor_container = self._mdib.descriptions.handle.get_one(
             descriptor_container.parent_handle, allow_none=True)
         if parent_descriptor_container is not None:
             parent_descriptor_container.increment_descriptor_version()
-            proc.descr_updated.append(parent_descriptor_container.mk_copy())
+            self._add_updated_descriptor(proc, parent_descriptor_container)
             self._update_corresponding_state(parent_descriptor_container)
 
     def _get_states_update(self, container: AbstractStateProtocol | AbstractDescriptorProtocol) -> dict:
